@@ -83,7 +83,7 @@ PROPS['C10'] = dict(
 )
 
 PROPS['C14'] = dict(
-    unit_modules=[], driver_modules=['drivers.c14'], level='other',
+    unit_modules=['contracts.c14_aggregates'], driver_modules=['drivers.c14'], level='other',
     level_text='tbd', level_note='tbd', assumptions=COMMON_ASSUMPTIONS,
 )
 PROPS['C15'] = dict(
